@@ -48,4 +48,14 @@ TEXT = {
   "note": "trusted: Lean kernel; harness prints successor lists in the cfg's own enumeration order; call graphs not driven",
   "technique": "Lean 4 proved checker (sound+complete) evaluated on the implementation's output + exact correspondence with a model of the algorithm",
  },
+ "C20": {
+  "level": "proof: 60 Lean theorems over exact models — int64/uint64/string round trips, truncating division/remainder characterised uniquely, floor shifts (for amounts < 2^64), two's-complement and/or/xor at every bit position incl. negatives, fill_ones, q_number construction/rounding = floor/ceil for every denominator != 0, exact q arithmetic, safe_i64 checked ops (= exact result iff in range, error otherwise, never wraps), linear expressions homomorphic under + - scale rename with canonical form preserved, negate = exact complement over the integers for every constraint kind, is_tautology/is_contradiction exact on constant constraints and false otherwise, normalize preserves the solution set; models tied to the code by exact correspondence on 2.5*10^5 cases per run plus evaluation of the mathematical meaning",
+  "note": "trusted: Lean kernel, GMP = Int/Rat, harness glue; known finding F22 (shift amounts >= 2^64 reduced through mpz_get_ui) is recorded, not repaired",
+  "technique": "Lean 4 theorems over exact models + exact differential correspondence",
+ },
+ "C19": {
+  "level": "proof: 56 Lean theorems over the exact model of the big-endian Patricia trees (all structural cases of merge in both default modes, compare, insert, remove, the explicit-stack iterator; 64-bit index wrap explicit; pointer-equality shortcut as an oracle proved irrelevant): well-formedness preserved, lookup after insert/remove/merge is pointwise, compare <-> pointwise order, canonicity, iteration = sorted bindings exactly once; lifted to environments over intervals (at of join/meet/widening/narrowing pointwise, <= iff pointwise, set/forget/project/rename, iteration = non-top bindings) and to sets (union, intersection, subset, equality exact). Model tied to the code by exact correspondence (10^5 lines per run, three evaluations per line incl. a pointwise spec map)",
+  "note": "trusted: Lean kernel; model = code by differential run; not modelled: widening_thresholds/transform; discrete_domain add/remove/diff/rename only tested",
+  "technique": "Lean 4 refinement proofs (tree -> finite map) + exact differential correspondence with a spec-map oracle",
+ },
 }
